@@ -1984,6 +1984,80 @@ def _svg_job(cfg):
     return cfg, "ret", problems
 
 
+def _img_job(probe):
+    """SvgBuilder::to_str on a V01 symbol of light modules with the image option set to `probe` -> the document text"""
+    f = _G["facts"]
+    n = ref.side(1)
+    pe = peval.PEval(f, max_steps=30_000_000)
+    r = pe.call("qr::QRCode::default", [fold.mk_int("usize", n)])
+    if r.kind != "ret" or r.value == TOP:
+        return probe, "top", "QRCode::default does not fold"
+    b = _svg_builder(f, 4, [], "#ffffff", "#000000")
+    if b is None:
+        return probe, "top", "SvgBuilder has fields the rule does not know"
+    names = [fl["name"] for fl in f.adts[SVGB]["variants"][0]["fields"]]
+    i = names.index("image")
+    b = b[:4] + (b[4][:i] + (_opt(("string", tuple(ord(c) for c in probe))),) + b[4][i + 1:],)
+    r2 = pe.run(SVGB + "::to_str", [("ref", ("const", b)), ("ref", ("const", r.value))])
+    if r2.kind != "ret":
+        return probe, r2.kind, r2.why
+    s_ = peval._pystr(pe, None, r2.value) if r2.value != TOP else None
+    if s_ is None:
+        return probe, "top", "to_str does not return a known string"
+    return probe, "ret", s_
+
+
+def c12_r9(ctx, f, rid="C12.R9"):
+    ctx.rule(rid, "the embedded image end to end: SvgBuilder::to_str with the image option set to each probe string (every printable "
+                  "ASCII character, quotes, angle brackets, ampersands, data URIs with quoted parameters and hostile tails, URLs, "
+                  "paths, non-ASCII text) returns a well-formed XML document with exactly one <image> element whose href, decoded by "
+                  "an XML parser, is the probe string itself")
+    fn = anchor_fn(ctx, rid, f, SVGB + "::to_str")
+    if not fn:
+        return None
+    from .rules_svg import ESC_PROBES
+    import xml.etree.ElementTree as ET
+    _G["facts"] = f
+    probes = [p_ for p_ in ESC_PROBES if p_]
+    res = cache.pmap(f, "image-href", _img_job, probes, params=f.config)
+    n_ok = 0
+    und = _Und()
+    groups = _Groups()
+    for probe, kind, out in res:
+        shown = probe.encode("unicode_escape").decode()[:60]
+        if kind == "diverge":
+            groups.add("panics", "image %r" % shown, "a document", out)
+            continue
+        if kind != "ret":
+            und.add(out, "image %r" % shown)
+            continue
+        try:
+            root = ET.fromstring(out)
+        except ET.ParseError as e:
+            groups.add("ill-formed", "image %r" % shown, "a well-formed document", "%s near ...%s" % (e, out[max(0, out.find("<image") - 10):][:120]))
+            continue
+        imgs = [el for el in root.iter() if el.tag.rsplit("}", 1)[-1] == "image"]
+        if len(imgs) != 1:
+            groups.add("image-count", "image %r" % shown, 1, len(imgs))
+            continue
+        hrefs = [v for k, v in imgs[0].attrib.items() if k.rsplit("}", 1)[-1] == "href"]
+        if hrefs != [probe]:
+            groups.add("href", "image %r" % shown, probe[:80], [h[:80] for h in hrefs])
+            continue
+        extra = [el.tag for el in root.iter() if el.tag.rsplit("}", 1)[-1] not in ("svg", "rect", "path", "image", "circle", "g", "defs", "clipPath")]
+        if extra:
+            groups.add("injected-elements", "image %r" % shown, "none", extra[:3])
+            continue
+        n_ok += 1
+    if n_ok:
+        ctx.ok(rid, "%d image strings: one <image>, href decodes to the string, document well-formed" % n_ok, n=n_ok)
+    groups.emit(ctx, rid, SVGB + "::to_str", where_fn(fn), fn.path,
+                "with this image string the document is ill-formed, has no or several image elements, or the href does not designate "
+                "the configured image (first string shown)")
+    und.emit(ctx, rid, "to_str with an image", where_fn(fn))
+    return bool(n_ok) and not und.count
+
+
 def c12_r7(ctx, f, rid="C12.R7"):
     ctx.rule(rid, "SVG document by partial evaluation with symbolic module values: square viewBox/background of side size+2*margin in "
                   "the background colour, one <path> per layer with exactly one sub-path slot per module, taken iff the module is dark "
